@@ -327,6 +327,7 @@ func checkC05(c *Ctx) {
 		{"loop-variable-visibility-after-loop", "for j = 3 {}; println(catch(j).err)"},
 		{"loop-variable-invisible-to-callees-during-loop", "f = func() {i}; for i = 3 {println(catch(f()).err)}"},
 		{"loop-variable-invisible-to-callees-during-loop", "g = func() {f = func() {k}; for k = 2 {println(catch(f()).err)}}; g()"},
+		{"loop-variable-invisible-to-callees-during-loop", "tree = func(n) {if n <= 0 {return []}; r = []; for i = 2 {r = r + tree(n - 1); r = r + [i]}; r}; println(tree(3))"},
 	}
 	for _, p := range pinned {
 		a, _ := runHistory([]string{p.src}, RunOpt{})
